@@ -42,6 +42,16 @@ SUMMARY = {
  "C18-b": ("identical plain report lines are skipped; the ok-path does not update the remembered line", "plain report R, then an ok-prefixed report changing R's letters, then R again"),
  "C19-b": ("sparse sample_path filters unscaled heights and scales afterwards", "live sparse map with set_scale(s > 1) and a line whose scaled changes exceed the tolerance"),
  "C20-b": ("hooks all receive the original params; only the last result is kept", ">= 2 hooks and a non-last hook returning a new mapping"),
+ "C01-c": ("_get_statement memoises parameter-less statements keyed by the enum member (DistanceMode.RELATIVE == ExtrusionMode.RELATIVE)", "set_extrusion_mode(m) and set_distance_mode(m) on the same builder: the second emits the first one's code"),
+ "C02-c": ("tool_off()/power_off() skip writing M05 when their own mode was already OFF but still clear the shared flag", "tool started through one API and stopped through the other, then a halt/tool change"),
+ "C03-c": ("probe() validates the caller's raw point instead of the absolute target", "relative mode, position near a limit, probe offset inside the box but target outside"),
+ "C04-c": ("scale(): diagonal built as (scale*3)[:3]: two factors scale Z by the X factor", "scale(sx, sy) with exactly two factors and a move with non-zero z"),
+ "C05-c": ("pre-validation of F/S skipped when the word repeats the remembered parameter value", "value remembered, bounds tightened at run time (or remembered through set_axis), same value again"),
+ "C06-c": ("emergency_halt emits one comment per message line (none for an empty message)", "emergency_halt('')"),
+ "C07-c": ("S word pre-validated with the feed-rate validator", "tool-power bounds + a tracked move with S outside them: state changes although nothing is emitted"),
+ "C08-c": ("parameters(): non-axis words formatted with str() unless int/float", "numpy float32/int64 scalars in E/F/P... words (tiny, non-finite or with more decimals than configured)"),
+ "C09-c": ("line breaks only flattened when the text has more than one line", "text ending in a single trailing line break under a delimited comment style"),
+ "C10-c": ("arc z interpolated from the centre's z instead of the start's", "centre argument with a non-zero third component"),
 }
 rows = []
 for mp in sorted(glob.glob("/verif/seeded/*/meta.json")):
